@@ -24,7 +24,7 @@ PROJ_REL = "src-tauri"
 CLASSES = ["cmd_added", "cmd_renamed", "param_type", "param_added", "param_renamed", "param_optional",
            "ret_type", "cmd_rename_all",
            "field_added", "field_type", "field_rename", "rename_identity", "rename_all", "skip_added",
-           "variant_added", "variant_rename", "validator", "validator_changed",
+           "variant_added", "variant_rename", "validator", "validator_changed", "range_bound",
            "event_payload", "event_renamed", "event_added", "event_struct",
            "channel_type", "channel_added",
            "mode", "type_mapping", "param_case", "field_case"]
@@ -45,6 +45,7 @@ class State:
         self.out_rel = OUT_REL     # output path relative to the sandbox root (normalised)
         self.transform = set()     # C13 semantics-preserving source transformations: noise decoys reorder moved split
         self.verbose_cfg = False
+        self.symlink = False       # a second path to cmds/a.rs through a symbolic link inside the scanned tree
         self.out_cfg = None        # spelling of the output path in the configuration (None = "./" + out_rel)
         self.proj_cfg = None
 
@@ -68,6 +69,7 @@ def render(st):
     zip_ty = "Option<u32>" if a["field_type"] else "Option<String>"
     # a rename that spells the identifier itself: it changes the output only because it switches the container's
     # rename_all off for this field (totalItems -> total_items)
+    lat_min = "-45" if a["range_bound"] else "-90"      # a negative whole-number bound moved to another one
     report_field = "    pub eta_seconds: Option<u32>,\n" if a["event_struct"] else ""
     identity_attr = '    #[serde(rename = "total_items")]\n' if a["rename_identity"] else ""
     models = """use serde::{Deserialize, Serialize};
@@ -93,6 +95,8 @@ pub enum Status {
 #[derive(Serialize, Deserialize)]
 pub struct Address {
     pub street: String,
+    #[validate(range(min = %s, max = 90))]
+    pub latitude: f64,
     pub zip_code: %s,
 }
 
@@ -113,7 +117,7 @@ pub struct Unused {
 pub struct JobReport {
     pub percent: u8,
 %s}
-""" % (user_attr, valid_attr, email_attr, secret_attr, extra_field, inactive_attr, variant, zip_ty, identity_attr, report_field)
+""" % (user_attr, valid_attr, email_attr, secret_attr, extra_field, inactive_attr, variant, lat_min, zip_ty, identity_attr, report_field)
     id_ty = "String" if a["param_type"] else "i32"
     ret_ty = "Vec<User>" if a["ret_type"] else "User"
     get_name = "fetch_user" if a["cmd_renamed"] else "get_user"
@@ -211,6 +215,8 @@ pub fn report(app: tauri::AppHandle, id: u32) {
         addr = [x for x in m_items if "pub struct Address" in x]
         models = "".join(x for x in m_items if "pub struct Address" not in x)
         moved_addr = "use serde::{Deserialize, Serialize};\n\n" + "".join(addr)
+    if "tobuildrs" in T:
+        pass    # handled where the file table is assembled (cmds/deep/b.rs is written as cmds/deep/build.rs)
     if "headnoise" in T:
         # layout noise in ONE file only: shifts its line numbers relative to every other file
         ev_rs = "// a long header comment\n" + "//\n" * 57 + "\n\n" + ev_rs
@@ -234,7 +240,7 @@ pub fn report(app: tauri::AppHandle, id: u32) {
     files.update({
         st.proj_rel + "/src/models.rs": models,
         st.proj_rel + "/src/cmds/a.rs": a_rs,
-        st.proj_rel + "/src/cmds/deep/b.rs": b_rs,
+        st.proj_rel + ("/src/cmds/deep/build.rs" if "tobuildrs" in T else "/src/cmds/deep/b.rs"): b_rs,
         st.proj_rel + "/src/events.rs": ev_rs,
         st.proj_rel + "/src/main.rs": "mod models;\nmod events;\nfn main() {}\n",
         st.proj_rel + "/target/debug/build/decoy.rs": "#[tauri::command]\npub fn decoy_in_target() {}\n",
@@ -252,6 +258,10 @@ pub fn report(app: tauri::AppHandle, id: u32) {
     if st.verbose_cfg:
         cfg["verbose"] = True
         files["typegen.json"] = json.dumps(cfg, indent=1, sort_keys=True)
+    if st.symlink:
+        # a second path to a file that holds only a helper type and a private function: reaching it twice adds nothing
+        files[st.proj_rel + "/src/shared/util.rs"] = "use serde::{Deserialize, Serialize};\n\n#[derive(Serialize, Deserialize)]\npub struct Stamp {\n    pub at: u64,\n}\n\n#[tauri::command]\npub fn stamp_now() -> Stamp {\n    Stamp { at: 0 }\n}\n"
+        files[st.proj_rel + "/src/cmds/zz_util_link.rs"] = "SYMLINK:../shared/util.rs"
     return files
 
 
@@ -493,6 +503,10 @@ class Sandbox:
         for rel, text in files.items():
             p = os.path.join(self.root, rel)
             os.makedirs(os.path.dirname(p), exist_ok=True)
+            if text.startswith("SYMLINK:"):
+                if not os.path.islink(p):
+                    os.symlink(text[len("SYMLINK:"):], p)
+                continue
             old = open(p).read() if os.path.exists(p) else None
             if old != text:
                 with open(p, "w") as f:
@@ -768,7 +782,7 @@ class Sandbox:
             shutil.rmtree(tmp, ignore_errors=True)
 
 
-def replay_history(root, hist, has_events, viz, case, driver_override=None, nfiles=2, setup=None, rich_foreign=False, has_cmds=True):
+def replay_history(root, hist, has_events, viz, case, driver_override=None, nfiles=2, setup=None, rich_foreign=False, has_cmds=True, symlink=False):
     """hist: list of TLC tuples (["edit",c] / ["events",b] / ["commands",b] / ["lose",f] / ["place","probe"] /
     ["run",driver,forced,faultkind,at] / ["end",status,skipped]).  Returns (events, predicted_vs_real list)."""
     # has_events / viz are the FINAL values TLC printed; a toggle entry carries the value AFTER the
@@ -788,6 +802,7 @@ def replay_history(root, hist, has_events, viz, case, driver_override=None, nfil
             break
     st = State(has_events=has_events, viz=viz)
     st.has_cmds = bool(has_cmds)
+    st.symlink = bool(symlink)
     st.nfiles = nfiles
     if setup:
         setup(st, root)
